@@ -40,6 +40,11 @@ Definition binop_okb (c : case) : bool :=
 Definition len0 (c : case) : N := match c_vals c with x :: _ => xlen x | [] => 0 end.
 Definition len1 (c : case) : N := match c_vals c with _ :: y :: _ => xlen y | _ => 0 end.
 
+(* decimal formatting divides by ten in the vector's own type: the subject needs at least one
+   storage word (Bvf<I,0> cannot hold the constant 10) and a length obeying A1 *)
+Definition disp_okb (c : case) : bool :=
+  (len0 c <? A1) && match c_vals c with XF _ v :: _ => 0 <? lenw (wd v) | _ => true end.
+
 Definition args_okb (c : case) : bool :=
   match c_op c with
   | 1 | 2 | 3 | 13 => nvals c 0
@@ -52,7 +57,7 @@ Definition args_okb (c : case) : bool :=
   | 11 | 12 => nvals c 1
   | 20 | 21 | 22 | 23 | 24 | 25 | 26 | 27 | 28 | 29 | 32 | 36 => nvals c 1
   | 30 => nvals c 1 && calls_okb (lst c 0)
-  | 31 => nvals c 1 && (1 <=? arg c 0) && (arg c 0 <=? 4)
+  | 31 => nvals c 1 && ((1 <=? arg c 0) || disp_okb c) && (arg c 0 <=? 4)
   | 33 => nvals c 1 && std_widthb (arg c 0)
   | 34 | 35 => nvals c 2
   | 37 => nvals c 2 && match c_vals c with a :: b :: _ => same_typeb a b | _ => false end
